@@ -26,7 +26,8 @@ package cipher
 //@
 //@ // TCP nonce progression (docs/protocol.md): "with each encryption operation the
 //@ // nonce value will increase by 1" - the whole nonce as one big-endian integer:
-//@ // byte j is incremented exactly when every lower-order byte was 0xff.
+//@ // byte j is incremented exactly when every lower-order byte was 0xff (stated in
+//@ // ripple-carry form below).
 //@ func (c *aeadBlockCipher) increaseNonce()
 //@   property C09 C01
 //@   mode int
@@ -34,8 +35,10 @@ package cipher
 //@   requires c.enableImplicitNonce && len(c.implicitNonce) > 0
 //@   modifies c.implicitNonce[..]
 //@   ensures len(c.implicitNonce) == old(len(c.implicitNonce))
-//@   ensures forall(j, 0, len(c.implicitNonce), forall(t, j + 1, len(c.implicitNonce), old(c.implicitNonce[t]) == 255) ==> c.implicitNonce[j] == old(c.implicitNonce[j]) + 1)
-//@   ensures forall(j, 0, len(c.implicitNonce), exists(t, j + 1, len(c.implicitNonce), old(c.implicitNonce[t]) != 255) ==> c.implicitNonce[j] == old(c.implicitNonce[j]))
+//@   // ripple-carry form of +1 on the big-endian value: the last byte is incremented;
+//@   // byte j is incremented exactly when byte j+1 was incremented and wrapped to 0
+//@   ensures c.implicitNonce[len(c.implicitNonce) - 1] == old(c.implicitNonce[len(c.implicitNonce) - 1]) + 1
+//@   ensures forall(j, 0, len(c.implicitNonce) - 1, c.implicitNonce[j] == ite(c.implicitNonce[j + 1] != old(c.implicitNonce[j + 1]) && c.implicitNonce[j + 1] == 0, old(c.implicitNonce[j]) + 1, old(c.implicitNonce[j])))
 //@   loop 1:
 //@     modifies c.implicitNonce[..]
 //@     invariant -1 <= rangeindex && rangeindex < len(c.implicitNonce)
